@@ -13,22 +13,15 @@ Two levels (see NOTES/C18.md):
   histories.
 * the **daemon model** (`Model.lean`, `run`): sockets, messages, service negotiation, device open/close, the
   main loop.  It is what the correspondence check runs against the real daemon on every audit line.  The
-  statements about it are kept as `def ..._full : Prop` (not proved: the lifting lemma "every step of `run` is
-  a sequence of queue-machine operations whose side condition holds" is missing) and are judged on the real code
-  by the oracle of `checks/C18.py`.  The witnesses of the four defects are evaluated on the daemon model.
+  statements about it (`refcount_exact_full`, `release_assert_unreachable_full`, `each_frame_once_in_order_full`,
+  `service_union_full`, `stalled_client_isolated_full`) are proved in `Props/C18Full.lean` by lifting the lemmas
+  used here (`ProxyQ/Lift*.lean`).  The witnesses of the four defects D1-D4 (repaired in /repo; stated as
+  equivalences with the source facts the translator reads) are evaluated on the daemon model.
 -/
 namespace Zvbi.Props.C18
 open Zvbi.ProxyQ Zvbi.Gen.ProxyQ
 
 /-! ## refcount_exact -/
-
-/-- FULL statement (open): in every state the daemon model reaches, for any device and any history of connects,
-service requests, captures, socket credit, disconnects and flushes: the reference count of every queued buffer is
-the number of client cursors at or before it, every cursor points into the queue or is NULL, and
-free + queued = allocated. -/
-def refcount_exact_full : Prop :=
-  ∀ (cfg : Cfg) (ops : List Op) (s : State), run cfg init ops = .ok s →
-    QInv s.dev.q (s.clients.map (·.backlog)) ∧ s.dev.free + s.dev.q.length = s.dev.allocated
 
 /-- Proved for all histories of the queue machine: the `ref_count` of the `j`-th newest buffer equals the number of
 cursors at or before it, no cursor points outside the queue, and the head buffer is held by somebody (so a
@@ -47,15 +40,6 @@ example : qstep { q := [{ frame := { seq := 0, ts := 1, lines := [] }, ref := 2 
     = some (.ok { q := [{ frame := { seq := 0, ts := 1, lines := [] }, ref := 1 }], free := 7, bl := [0, 1] }) := by rfl
 
 /-! ## release_assert_unreachable -/
-
-/-- the device keeps to what the daemon asserts about it -/
-def DevOk (_cfg : Cfg) (ops : List Op) : Prop :=
-  ∀ op ∈ ops, ∀ ts lines, op = Op.cap ts lines true → False
-
-/-- FULL statement (open): no history of the daemon model ends in an assertion, a dangling or a NULL cursor,
-provided the device never returns a full frame (see `line_count_assert_counterexample`). -/
-def release_assert_unreachable_full : Prop :=
-  ∀ (cfg : Cfg) (ops : List Op), DevOk cfg ops → ∀ e, run cfg init ops ≠ .error e
 
 /-- Proved for all histories of the queue machine: `assert (p_proxy_dev->p_sliced == p_buf)` in
 `vbi_proxy_queue_release_sliced` cannot fire, no cursor is dangling and no NULL cursor is released - for a
@@ -92,14 +76,6 @@ theorem line_count_assert_counterexample :
   decide
 
 /-! ## each_frame_once_in_order -/
-
-/-- FULL statement (open), through the ghost logs of the daemon model: for every client of a reachable state, the
-frames captured while it was subscribed (`expected`) are, in capture order, exactly the frames already taken from the
-queue for it (`done`: sent, or dropped for a recorded reason) followed by the frames still queued for it; and a
-frame is only ever dropped by the client's own service request, its disconnect, a flush, or an overflow. -/
-def each_frame_once_in_order_full : Prop :=
-  ∀ (cfg : Cfg) (ops : List Op) (s : State), run cfg init ops = .ok s →
-    ∀ c ∈ s.clients, c.expected = (pendingOf s.dev.q c.backlog).map (·.seq) ++ c.done.map (·.1)
 
 /-- Proved at the queue level: a release by a client takes exactly the OLDEST frame still pending for it and
 leaves the others, in order (FIFO, one at a time, nothing skipped, nothing repeated) ... -/
@@ -146,18 +122,6 @@ theorem filter_exact_repaired (maxLines granted : Nat) (lines : List Line) (h : 
 example : filterLinesWith true 9 6 [⟨1, 7, 1⟩, ⟨2, 8, 2⟩, ⟨4, 9, 3⟩] = [⟨2, 8, 2⟩, ⟨4, 9, 3⟩] := by decide
 
 /-! ## stalled_client_isolated / service_change_may_drop_only_own_queued -/
-
-/-- FULL statement (open), two-run form: two histories that differ only in the socket credit given to client `a`
-deliver the same messages to every other client `b` that is never itself overflowed. -/
-def stalled_client_isolated_full : Prop :=
-  ∀ (cfg : Cfg) (ops ops' : List Op) (a : Nat) (s s' : State),
-    (ops.filter (fun o => match o with | .credit k _ => k != a | _ => true)) =
-      (ops'.filter (fun o => match o with | .credit k _ => k != a | _ => true)) →
-    run cfg init ops = .ok s → run cfg init ops' = .ok s' →
-    ∀ b, b ≠ a → ∀ c ∈ s.clients, c.id = b → (∀ x ∈ c.done, x.2 ≠ Fate.overflow) →
-      ∀ c' ∈ s'.clients, c'.id = b → (∀ x ∈ c'.done, x.2 ≠ Fate.overflow) →
-      (c.done.filter (·.2 == Fate.sent)).isSuffixOf (c'.done.filter (·.2 == Fate.sent)) ∨
-      (c'.done.filter (·.2 == Fate.sent)).isSuffixOf (c.done.filter (·.2 == Fate.sent))
 
 /-- Proved at the queue level (one-run form): whatever client `i` releases - one buffer in force_free because it
 stalled, or everything on its own service request or disconnect - every OTHER client keeps its cursor and exactly
@@ -232,21 +196,11 @@ client 0, never lagging by the whole queue - loses frame 2 to the overflow cause
 the generated source fact, so that it stays true when the loop is repaired. -/
 theorem stalled_client_isolated_counterexample :
     (match run demoCfg init ffWitness with
-     | .ok s => s.clients.any (fun c => c.id == 1 && c.done.contains (2, Fate.overflow))
+     | .ok s => s.clients.any (fun c => c.id == 1 && c.done.any (fun x => x.1.seq == 2 && (match x.2 with | .overflow _ => true | _ => false)))
      | .error _ => false) = forceFreeLiveHead := by
   decide
 
 /-! ## service_union -/
-
-/-- FULL statement (open): while the device is open its service set is the union of the grants of the clients in
-state FORWARD, each grant being the union over the strictness levels of (requested & deliverable); the device is open
-iff some such client has a non-empty grant. -/
-def service_union_full : Prop :=
-  ∀ (cfg : Cfg) (ops : List Op) (s : State), run cfg init ops = .ok s →
-    (s.dev.opened = s.clients.any (·.subscribed)) ∧
-    (s.dev.opened = true → s.dev.allServices =
-      s.clients.foldl (fun acc c => if c.state == .forward then acc ||| c.allServices else acc) 0) ∧
-    (∀ c ∈ s.clients, c.state = .forward → c.allServices = allOf cfg c.services)
 
 /-- Proved: the grant the daemon computes for a client does not change when the daemon masks the client's stored
 requests with what was granted (the `&=` after `vbi_capture_update_services`), level by level - so recomputing the
